@@ -38,5 +38,25 @@ Proof.
   intros f n alts Hin Hl Hall Hp. unfold decorate. cbn [negb].
   rewrite (hints_of_union _ n alts Hin Hl Hall). destruct (f_provider f); try congruence; reflexivity.
 Qed.
+(* non-vacuity: concrete wrappers, arguments and values that meet the hypotheses above *)
+Definition ty0 : ttype := {| t_shape := []; t_mindex := None; t_mname := None; t_anon := false; t_lits := [] |}.
+Definition annA (s:string) (o:bool) : annot :=
+  {| a_ty := match parse_shape s with Ok ty => ty | Err _ => ty0 end; a_dtypes := []; a_opt := o |}.
+Definition tenE (l:list Z) : tensor := {| x_lib := LNumpy; x_dt := KF32; x_shape := l |}.
+Definition arrE (l:list Z) : value := VArr (tenE l).
+Example ex10_none_skipped_rest_still_queued :
+  add_loop "x" 0 [Some (annA "a" true); Some (annA "b" false)] [VNone; arrE [4]%Z] [] =
+  DOk [{| c_idx := 1; c_name := "x"; c_tensor := tenE [4]%Z; c_annot := annA "b" false |}].
+Proof. vm_compute. reflexivity. Qed.
+Example ex10_required_none : add_loop "x" 0 [Some (annA "a" false)] [VNone] [] = DRej EUnsupported.
+Proof. reflexivity. Qed.
+Example ex10_present_value_checked_under_optional :
+  run_ctx (ctx0 []) [("x", [arrE [2]%Z], Some [Some (annA "a" true)]); ("y", [arrE [3]%Z], Some [Some (annA "a" true)])] = DRej (EShape "y" 0 2 3).
+Proof. vm_compute. reflexivity. Qed.
+Example ex10_optional_hint : from_hint (HUnion [HAnn BSupported (annA "a" false)]) false = Ok (false, [Some (annA "a" true)]).
+Proof. reflexivity. Qed.
+Example ex10_two_tensor_union_refused :
+  decorate true {| f_params := [("x", HUnion [HAnn BSupported (annA "a" false); HAnn BSupported (annA "b" false)])]; f_ret := None; f_provider := PNone; f_is_method := false |} = DecError TypeErr.
+Proof. reflexivity. Qed.
 Redirect "C10.assumptions.1" Print Assumptions C10_none_skipped.
 Redirect "C10.assumptions.2" Print Assumptions C10_union_refused_at_decoration.
